@@ -3,7 +3,7 @@ import ast
 import re
 
 from ..pycfg import CFG, walk_no_nested
-from ..source import AnalysisError, find_function, first_line, src, functions
+from ..source import atoms, atom_key, truth, side, linear, guard_walk, is_guard, AnalysisError, find_function, first_line, src, functions
 
 SM = "nemoguardrails/colang/v2_x/runtime/statemachine.py"
 KINDS = ("dict", "list", "set")
@@ -98,6 +98,7 @@ def a_siblings(ctx, fn):
             ctx.check("C04.a.siblings", SM, unit, "branch isinstance(%s, %s)" % (ref, k), False, "no branch for expected containers of kind %s" % k, line=fn.lineno)
             continue
         ifn, body = br[k]
+        lin = linear(body)  # guard clauses read as a straight sequence
         # loop variables: for v in X / for v in X.keys()
         env = {}
         for n in [x for s in body for x in ast.walk(s)]:
@@ -109,7 +110,7 @@ def a_siblings(ctx, fn):
                     env[n.target.id] = it.id
         # (1) size guard: some `if len(ref) > len(args)` / `len(args) < len(ref)` whose body returns 0.0, before any loop
         guard = None
-        for s in body:
+        for s in lin:
             if isinstance(s, (ast.For, ast.While)):
                 break
             if isinstance(s, ast.If) and isinstance(s.test, ast.Compare) and len(s.test.ops) == 1 and any(_is_ret0(x) for x in s.body):
@@ -126,7 +127,7 @@ def a_siblings(ctx, fn):
         ctx.check("C04.a.recursion", SM, unit, "%s branch" % k, okrec,
                   "elements are compared by recursive calls (received element, expected element): %s" % [src(c) for c in recs], line=ifn.lineno)
         # (3) a `return 0.0` besides the size guard (expected element without partner)
-        rets = [x for s in body for x in ast.walk(s) if _is_ret0(x) and (guard is None or x not in list(ast.walk(guard)))]
+        rets = [x for s in body for x in ast.walk(s) if _is_ret0(x) and (guard is None or x not in list(guard_walk(guard)))]
         ctx.check("C04.a.no-partner", SM, unit, "%s branch" % k, len(rets) >= 1,
                   "an expected element without a matching partner returns 0.0 (%d return(s))" % len(rets), line=ifn.lineno)
         # (4) specificity factor once
@@ -138,11 +139,11 @@ def a_siblings(ctx, fn):
                     if isinstance(b, ast.Constant) and b.value == 0.9 and isinstance(e, ast.BinOp) and isinstance(e.op, ast.Sub) \
                             and _len_of(e.left, args) and _len_of(e.right, ref):
                         facs.append(x)
-        top = [x for x in facs if any(x is s for s in body)]
+        top = [x for x in facs if any(x is s for s in lin)]
         ctx.check("C04.a.specificity", SM, unit, "%s branch" % k, len(facs) == 1 and len(top) == 1,
                   "the factor 0.9 ** (len(%s) - len(%s)) is applied exactly once, unconditionally (found %d, %d unconditional)" % (args, ref, len(facs), len(top)), line=ifn.lineno)
         # (5) the driving loop iterates over the expected container
-        loops = [s for s in body if isinstance(s, (ast.For, ast.While))]
+        loops = [s for s in lin if isinstance(s, (ast.For, ast.While))]
         ok5 = False
         if loops:
             lp = loops[0]
@@ -164,8 +165,17 @@ def b_dispatch(ctx, fn):
     eq = [n for n in ast.walk(fn) if isinstance(n, ast.If) and isinstance(n.test, ast.Compare) and len(n.test.ops) == 1
           and isinstance(n.test.ops[0], ast.NotEq) and {src(n.test.left), src(n.test.comparators[0])} == {args, ref} and any(_is_ret0(x) for x in n.body)]
     ctx.check("C04.b.fallthrough", SM, fn.name, "scalar equality", len(eq) == 1, "scalars fall through to `%s != %s => 0.0`" % (args, ref), line=fn.lineno)
-    tm = [n for n in ast.walk(fn) if isinstance(n, ast.If) and isinstance(n.test, ast.UnaryOp) and isinstance(n.test.op, ast.Not)
-          and "isinstance(%s, type(%s))" % (ref, args) in src(n.test) and any(_is_ret0(x) for x in n.body)]
+    # either polarity: the side of the test on which the types differ returns 0.0
+    tm = []
+    for n in ast.walk(fn):
+        if not isinstance(n, ast.If):
+            continue
+        neg = isinstance(n.test, ast.UnaryOp) and isinstance(n.test.op, ast.Not)
+        core = n.test.operand if neg else n.test
+        if re.sub(r"\s", "", src(core)) == "isinstance(%s,type(%s))" % (ref, args):
+            mismatch_side = n.body if neg else n.orelse
+            if any(_is_ret0(x) for x in mismatch_side):
+                tm.append(n)
     ctx.check("C04.b.type-mismatch", SM, fn.name, "type mismatch", len(tm) == 1, "a value of another type than the pattern is no match (0.0)", line=fn.lineno)
     # producers of pattern objects exist in eval.py's function table with those types
     EV = "nemoguardrails/colang/v2_x/runtime/eval.py"
@@ -280,24 +290,36 @@ def c_identity(ctx, t, argfn):
     if len(scoring) < 2:
         raise AnalysisError("argument scoring calls not found in _compute_event_comparison_score", anchor=SM + "::" + unit + "::scoring")
 
-    def ret0_tests(pred):
+    def edge(n, value):
+        return [m for m, lab in n.succ if lab is value]
+
+    def ret0_tests(facts, need):
+        """test nodes that, under the given facts (atom -> truth), have a definite outcome whose edge returns 0.0 at once; `need` = predicate on the test's text"""
         out = []
         for n in cfg.nodes:
-            if n.kind == "test" and isinstance(n.stmt, ast.If) and pred(src(n.ast)) and any(_is_ret0(s) for s in n.stmt.body):
-                out.append(n)
+            if n.kind != "test" or not isinstance(n.stmt, ast.If) or n.ast is None or not need(re.sub(r"\s", "", src(n.ast))):
+                continue
+            v = truth(n.ast, facts)
+            if v is None:
+                continue
+            tgt = edge(n, v)
+            if tgt and all(m.kind == "stmt" and _is_ret0(m.ast) for m in tgt):
+                out.append((n, v))
         return out
 
     # UMIM branch: scoring on a copy of the event
     umim = [n for n in scoring if "copy" in src(n.ast.value.args[0])]
     ctx.floor("C04.c.identity", SM, "argument scoring of action events", len(umim), 1)
-    name_tests = ret0_tests(lambda s: ".name" in s and "!=" in s and "action_uid" not in s and "InternalEvents" not in s)
-    uid_tests = ret0_tests(lambda s: "action_uid" in s and "!=" in s)
+    NAME_EQ = "event.name == ref_event.name"
+    UID_EQ = "event.action_uid == ref_event.action_uid"
+    name_tests = ret0_tests({NAME_EQ: False}, lambda s: "action_uid" not in s and "InternalEvents" not in s)
+    uid_tests = ret0_tests({UID_EQ: False, "ref_event.action_uid is None": False}, lambda s: "action_uid" in s)
     for a in umim:
-        ok = any(cfg.dominates(nt, a) for nt in name_tests)
+        ok = any(cfg.dominates(nt, a) and a not in cfg.reachable(edge(nt, v)) for nt, v in name_tests)
         ctx.check("C04.c.identity", SM, unit, "name before arguments", ok, "`ref_event.name != event.name => 0.0` dominates the argument scoring of action events", line=a.line)
         ok = False
         msg = "no `action_uid` inequality test returning 0.0"
-        for g in uid_tests:
+        for g, gv in uid_tests:
             # the enclosing hasattr guard (if any)
             h = g
             p = getattr(g.stmt, "_parent", None)
@@ -305,23 +327,20 @@ def c_identity(ctx, t, argfn):
                 if isinstance(p, ast.If) and "hasattr" in src(p.test) and "action_uid" in src(p.test):
                     h = cfg.node_of(p.test)
                 p = getattr(p, "_parent", None)
+            if isinstance(g.stmt, ast.If) and "hasattr" in src(g.stmt.test) and h is g:
+                # merged form: `hasattr(...) and hasattr(...) and <uid test>` in one condition is its own guard
+                pass
             if not cfg.dominates(h, a):
                 msg = "the action_uid test (or its hasattr guard) does not dominate the argument scoring"
                 continue
             if h is g:
-                ok = True
+                ok = a not in cfg.reachable(edge(g, gv))
             else:
                 first = [m for m, lab in h.succ if lab is True]
                 reach = cfg.reachable(first, avoid={g})
-                ok = a not in reach
+                ok = a not in reach and a not in cfg.reachable(edge(g, gv))
                 if not ok:
                     msg = "a path from the hasattr guard reaches the argument scoring without the action_uid comparison"
-            # the test must compare ref_event.action_uid with event.action_uid and require ref uid not None
-            if ok:
-                s = src(g.ast)
-                ok = "ref_event.action_uid != event.action_uid" in s.replace("(", "").replace(")", "") or "event.action_uid != ref_event.action_uid" in s
-                if not ok:
-                    msg = "the test `%s` does not compare the two action uids" % s
             if ok:
                 msg = "a statement referring to a specific action instance returns 0.0 for events of another instance before arguments are scored"
                 break
@@ -329,11 +348,31 @@ def c_identity(ctx, t, argfn):
     # internal events
     internal = [n for n in scoring if n not in umim and any(isinstance(p, ast.If) and "InternalEvents.ALL" in src(p.test) for p in _anc(n.ast, fn))]
     ctx.floor("C04.c.identity", SM, "argument scoring of internal events", len(internal), 1)
-    id_tests = ret0_tests(lambda s: "flow_id" in s and "source_flow_instance_uid" in s)
+
+    def _differs(x):
+        # `<argfn>(<received>, <expected>) != 1.0` = "the two values do not match exactly"
+        return isinstance(x, ast.Compare) and len(x.ops) == 1 and isinstance(x.ops[0], (ast.NotEq, ast.Eq)) and isinstance(x.left, ast.Call) and src(x.left.func) == argfn.name \
+            and isinstance(x.comparators[0], ast.Constant) and x.comparators[0].value == 1.0
     for a in internal:
-        ok = any(cfg.dominates(g, a) for g in id_tests)
-        s = src(id_tests[0].ast) if id_tests else ""
-        ok = ok and "ref_event.flow.uid" in s and s.count("!= 1.0") == 2
+        ok, why = False, "no test of flow_id / source flow instance returning 0.0 dominates the argument scoring"
+        for n in cfg.nodes:
+            if n.kind != "test" or n.ast is None or not cfg.dominates(n, a):
+                continue
+            cmps = [x for x in atoms(n.ast) if _differs(x)]
+            txt = src(n.ast)
+            if len(cmps) != 2 or "flow_id" not in txt or "source_flow_instance_uid" not in txt or "ref_event.flow.uid" not in txt:
+                continue
+            # either comparison failing (value present, not an exact match) decides the test; that outcome returns 0.0 and never reaches the scoring
+            good = True
+            for c in cmps:
+                key, _pol = atom_key(c)
+                facts = {key: False, (lambda t_: not _differs(t_)): True}
+                v = truth(n.ast, facts)
+                tgt = edge(n, v) if v is not None else []
+                if v is None or not tgt or not all(m.kind == "stmt" and _is_ret0(m.ast) for m in tgt) or a in cfg.reachable(tgt):
+                    good = False
+            if good:
+                ok = True
         ctx.check("C04.c.identity", SM, unit, "flow instance before arguments", ok,
                   "for internal events the flow_id and the source flow instance (ref_event.flow.uid) are compared, returning 0.0, before arguments are scored", line=a.line)
 
@@ -438,7 +477,7 @@ def a_list_scan(ctx, fn):
     if "list" not in br:
         return
     ifn, body = br["list"]
-    loops = [s for s in body if isinstance(s, ast.While)]
+    loops = [s for s in linear(body) if isinstance(s, ast.While)]
     if not loops:
         ctx.check("C04.a.list-scan", SM, fn.name, "list scan loop", False, "no scanning loop in the list branch", line=ifn.lineno)
         return
@@ -448,7 +487,7 @@ def a_list_scan(ctx, fn):
         ctx.check("C04.a.list-scan", SM, fn.name, "list scan cursors", False, "the element comparison does not index both lists", line=lp.lineno)
         return
     ri, ei = src(rec[0].args[0].slice), src(rec[0].args[1].slice)
-    inc_r_top = [s for s in lp.body if isinstance(s, ast.AugAssign) and src(s.target) == ri and isinstance(s.op, ast.Add) and src(s.value) == "1"]
+    inc_r_top = [s for s in linear(lp.body) if isinstance(s, ast.AugAssign) and src(s.target) == ri and isinstance(s.op, ast.Add) and src(s.value) == "1"]
     inc_r_all = [s for s in ast.walk(lp) if isinstance(s, ast.AugAssign) and src(s.target) == ri]
     ok_r = len(inc_r_top) == 1 and len(inc_r_all) == 1
     ctx.check("C04.a.list-scan", SM, fn.name, "received cursor %s" % ri, ok_r,
@@ -456,7 +495,7 @@ def a_list_scan(ctx, fn):
               "the cursor over the received list does not advance on every iteration: one received element can satisfy several consecutive expected items (e.g. pattern [1, 1] matches [1, 2])",
               line=lp.lineno)
     inc_e = [s for s in ast.walk(lp) if isinstance(s, ast.AugAssign) and src(s.target) == ei]
-    ok_e = len(inc_e) == 1 and not any(inc_e[0] is s for s in lp.body)
+    ok_e = len(inc_e) == 1 and not any(inc_e[0] is s for s in linear(lp.body))
     if ok_e:
         par = getattr(inc_e[0], "_parent", None)
         ok_e = isinstance(par, ast.If) and "> 0" in src(par.test)
@@ -503,21 +542,31 @@ def a_no_exempt_keys(ctx, fn):
     n = 0
     for l in loops:
         n += 1
-        skips = [i for i in ast.walk(l) if isinstance(i, ast.If) and any(isinstance(x, ast.Continue) for x in i.body) and isinstance(i.test, ast.Compare)
-                 and isinstance(i.test.ops[0], ast.In)]
+        # an exemption = the loop's key is tested for membership in a collection that is NOT the received container (that one is the presence test), in either
+        # polarity and whatever the skipping looks like (continue / else-branch / guard)
+        args = fn.args.args[0].arg
+        keyvars = {x.id for x in ast.walk(l.target) if isinstance(x, ast.Name)}
+        skips = []
+        for i in ast.walk(l):
+            if not isinstance(i, ast.If):
+                continue
+            for c in ast.walk(i.test):
+                if isinstance(c, ast.Compare) and len(c.ops) == 1 and isinstance(c.ops[0], (ast.In, ast.NotIn)) and isinstance(c.left, ast.Name) and c.left.id in keyvars \
+                        and not any(isinstance(x, ast.Name) and x.id == args for x in ast.walk(c.comparators[0])):
+                    skips.append(c)
         ok = not skips
         construct = "for %s in %s" % (src(l.target), src(l.iter))
         if skips:
             # name the finding by WHICH keys are exempt (resolved literal), not by the name of the variable that holds them
             from ..source import local_or_module_literal
-            comp = skips[0].test.comparators[0]
+            comp = skips[0].comparators[0]
             lit = comp if isinstance(comp, (ast.List, ast.Tuple, ast.Set)) else (local_or_module_literal(fn, ctx.tree.ast(SM), comp.id) if isinstance(comp, ast.Name) else None)
             vals = sorted(str(e.value) for e in lit.elts if isinstance(e, ast.Constant)) if lit is not None else [src(comp)]
             construct = "keys exempt from comparison: %s" % ", ".join(vals)
         ctx.check("C04.a.no-exempt-keys", SM, fn.name, construct, ok,
                   "every key of the expected dict is compared" if ok else
                   "keys in `%s` are skipped at every depth and for every event: a WRITTEN parameter with such a name (e.g. `match $check.Finished(return_value=\"allowed\")`) is never compared and the "
-                  "statement advances on any value" % src(skips[0].test.comparators[0]), line=(skips[0].lineno if skips else l.lineno))
+                  "statement advances on any value" % src(skips[0].comparators[0]), line=(skips[0].lineno if skips else l.lineno))
     ctx.floor("C04.a.no-exempt-keys", SM, "loops over the expected container", n, 2)
 
 
